@@ -253,7 +253,10 @@ func c31Run(t *testing.T, rec *kit.Rec, c c31Case) {
 	}
 
 	// ---- one fault at every mutation position
-	modes := []string{"once-retryable", "once-permanent", "once-permanent-applied", "persistent"}
+	// "once-partial-write": the Save of the new config fails once AND leaves a truncated file behind
+	// (what a backend without atomic replace can do); the recovery must still put the old config
+	// back (seeded change C31-2)
+	modes := []string{"once-retryable", "once-permanent", "once-permanent-applied", "persistent", "once-partial-write"}
 	for pos, op := range muts {
 		for _, mode := range modes {
 			f := c31Fault{Pos: pos, Op: fmt.Sprintf("%s %s", op.Kind, op.H.Type), Mode: mode}
@@ -282,7 +285,25 @@ func c31FaultRun(x *c31Ctx, start kit.State, f c31Fault) {
 	case "persistent":
 		persistent = true
 	}
-	fe.vbe.SetFault(kit.FailNth(kit.IsMutation, f.Pos+1, phase, persistent, ferr))
+	if f.Mode == "once-partial-write" {
+		if f.Op != "save config" {
+			return // only meaningful for the upload of the new config
+		}
+		n := 0
+		fe.vbe.SetFault(func(op *kit.Op, ph kit.Phase) error {
+			if ph != kit.Before || !op.Mutating() {
+				return nil
+			}
+			n++
+			if n == f.Pos+1 && op.Kind == kit.OpSave && op.H.Type == backend.ConfigFile {
+				fe.vbe.Put(backend.ConfigFile, "", op.Data[:len(op.Data)/2])
+				return kit.ErrPermanent
+			}
+			return nil
+		})
+	} else {
+		fe.vbe.SetFault(kit.FailNth(kit.IsMutation, f.Pos+1, phase, persistent, ferr))
+	}
 	var out vOut
 	base, muts, err := fe.vJournaled(func() error {
 		var err error
